@@ -3,6 +3,7 @@ package h
 import (
 	"fmt"
 	"strings"
+	"time"
 
 	bm "github.com/microcosm-cc/bluemonday"
 	"golang.org/x/net/html"
@@ -18,6 +19,7 @@ type Exec struct {
 	Rec     *CallRec
 	InToks  []Tok
 	OutToks []Tok
+	Dur     time.Duration // wall time of the call, when measured
 }
 
 func NewExec(r Recipe, model *AP, real *bm.Policy, in, out []byte, rec *CallRec) *Exec {
